@@ -213,7 +213,7 @@ def r9(repo, res):
             kind, rows = fold_solve_major(repo, inst, 0.0, wrapper, every=True)
         except Unfoldable as e:
             res.err("C02.R9", f"solve_major_model outside the folding language: {e}")
-            return
+            continue   # no verdict on this instance; what the others show is still reported
         n += 1
         tag = inst.describe()
         if kind == "raise":
@@ -252,7 +252,7 @@ def r9(repo, res):
                 kind, rows = fold_solve_major(repo, inst, gap, wrapper)
             except Unfoldable as e:
                 res.err("C02.R10", f"solve_major_model outside the folding language: {e}")
-                return
+                continue   # no verdict on this instance; what the others show is still reported
             if kind == "raise":
                 bad.setdefault("runs", f"{tag}, gap {gap}: raises {rows}")
                 continue
